@@ -178,6 +178,9 @@ pub trait DynHash {
     fn update(&mut self, data: &[u8]);
     fn finalize_reset(&mut self) -> Vec<u8>;
     fn finalize_box(self: Box<Self>) -> Vec<u8>;
+    /// `FixedOutput::finalize_into_reset` writing the digest into caller-provided memory
+    /// (`out.len()` must be the output size).
+    fn finalize_into_slice(&mut self, out: &mut [u8]);
     fn reset(&mut self);
     fn box_clone(&self) -> Box<dyn DynHash>;
     fn counter(&self) -> u128;
@@ -195,6 +198,9 @@ macro_rules! impl_dyn_hash {
             }
             fn finalize_box(self: Box<Self>) -> Vec<u8> {
                 FixedOutput::finalize_fixed(*self).to_vec()
+            }
+            fn finalize_into_slice(&mut self, out: &mut [u8]) {
+                FixedOutput::finalize_into_reset(self, digest::generic_array::GenericArray::from_mut_slice(out))
             }
             fn reset(&mut self) {
                 Reset::reset(self)
